@@ -302,11 +302,13 @@ def finish(ctx, signature, level_rule, assumptions, trusted_base, extra_cov=None
         cov["notes"] = ctx.notes
     ev = {"property_id": ctx.pid, "tier": ctx.tier, "seed": ctx.seed, "level": "model_checking", "coverage": cov,
           "assumptions": assumptions, "wall_s": round(time.time() - ctx.t0, 1), "violations": violations}
-    os.makedirs(os.path.join(VERIF, "evidence"), exist_ok=True)
-    tmp = os.path.join(VERIF, "evidence", ctx.pid + ".json.tmp")
+    # experiments against modified trees (bin/seedcheck, bin/fixrevert) write their evidence elsewhere
+    evdir = os.environ.get("VERIF_EVIDENCE_DIR") or os.path.join(VERIF, "evidence")
+    os.makedirs(evdir, exist_ok=True)
+    tmp = os.path.join(evdir, ctx.pid + ".json.tmp")
     with open(tmp, "w") as f:
         json.dump(ev, f)
-    os.replace(tmp, os.path.join(VERIF, "evidence", ctx.pid + ".json"))
+    os.replace(tmp, os.path.join(evdir, ctx.pid + ".json"))
     print("%s %s: %d model states, %d real-code events judged by TLC, %d rejected (%d known), %.0fs"
           % (ctx.pid, ctx.tier, ctx.states, ctx.events, len(ctx.rejected), sum(known_hits.values()), time.time() - ctx.t0))
     return 1 if violations else 0
